@@ -25,6 +25,8 @@ analysed program (noted where it is only so for the analysis):
                                        need)
   if c: ...jump  else: REST        ->  if c: ...jump ; REST     (jump = return,
                                        raise, continue, break)
+  a, b = x, y                      ->  a = x ; b = y   (names on the left,
+                                       simple operands that read no target)
   x = A if c else B                ->  if c: x = A  else: x = B   (also
                                        `return A if c else B`; only when the
                                        statement is exactly that)
@@ -170,6 +172,25 @@ class _Stmt(ast.NodeTransformer):
     def visit_Assign(self, node):
         if len(node.targets) == 1:
             t, v = node.targets[0], node.value
+            # a, b = x, y  ->  a = x ; b = y   (plain names on the left, simple
+            # operands on the right which do not read a target)
+            if isinstance(t, (ast.Tuple, ast.List)) and \
+                    isinstance(v, (ast.Tuple, ast.List)) and \
+                    len(t.elts) == len(v.elts) and \
+                    all(isinstance(x, ast.Name) for x in t.elts) and \
+                    all(isinstance(x, (ast.Name, ast.Constant, ast.Attribute))
+                        or (isinstance(x, ast.Call) and not x.args and
+                            not x.keywords and isinstance(x.func, ast.Name)
+                            and x.func.id in ('list', 'dict', 'set'))
+                        or (isinstance(x, (ast.List, ast.Dict, ast.Set)) and
+                            not ast.dump(x).count('Name('))
+                        for x in v.elts):
+                tnames = {x.id for x in t.elts}
+                reads = {n.id for x in v.elts for n in ast.walk(x)
+                         if isinstance(n, ast.Name)}
+                if not (tnames & reads) and len(tnames) == len(t.elts):
+                    return [_loc(ast.Assign(targets=[a], value=b), node)
+                            for a, b in zip(t.elts, v.elts)]
             if isinstance(t, (ast.Name, ast.Attribute, ast.Subscript)) and \
                     isinstance(v, ast.BinOp) and \
                     isinstance(v.op, (ast.Add, ast.Sub)) and \
